@@ -25,7 +25,8 @@ Proof.
 Qed.
 
 Lemma hint_of_at st o out :
-  hint_of st o out = hint_at (sheap st) (hbuf (hnd st (target o))) (vis_count out) (accepted out).
+  hint_of st o out =
+  with_cons (hint_at (sheap st) (hbuf (hnd st (target o))) (vis_count out) (accepted out)) (cons_of st o).
 Proof. reflexivity. Qed.
 
 Lemma upd_arr_same st x : x < length (shnd st) -> upd_arr st x (sheap st) (hbuf (hnd st x)) = st.
@@ -79,15 +80,16 @@ Lemma arr_step st o vis (r : ares) (specf : hint -> sval * outcome) :
   step st o = fin st (target o) vis r ->
   (forall h, sstep (abs st) o h =
              (lset (abs st) (target o) (false, fst (specf h)), snd (specf h))) ->
+  (forall h c, specf (with_cons h c) = specf h) ->
   (forall cnt acc, ares_ok (sheap st) (hbuf (hnd st (target o))) r
                      (specf (hint_at (sheap st) (hbuf (hnd st (target o))) cnt acc)) vis) ->
   step_ok st o.
 Proof.
-  intros I Hx Hs E S H. unfold step_ok. rewrite E.
+  intros I Hx Hs E S Hc H. unfold step_ok. rewrite E.
   pose proof (fin_sound st (target o) vis r specf I Hx Hs H) as F. cbn zeta in F.
   destruct (fin st (target o) vis r) as [st' out]. cbn [fst snd] in F.
   destruct F as [F1 [F2 F3]]. split; [exact F1|]. split; [exact F2|].
-  rewrite S, hint_of_at. exact F3.
+  rewrite S, hint_of_at, Hc. exact F3.
 Qed.
 
 
@@ -173,18 +175,18 @@ Lemma direct_guard st x (specf : hint -> sval -> sval * outcome) o :
   inv st -> x < length (shnd st) -> hsl (hnd st x) = false ->
   direct_ok (sheap st) (hbuf (hnd st x)) = None ->
   (forall h v, v = None \/ guarded h = true -> specf h v = G v) ->
-  hint_of st o OGuard = hint_at (sheap st) (hbuf (hnd st x)) 0 false ->
+  (exists c, hint_of st o OGuard = with_cons (hint_at (sheap st) (hbuf (hnd st x)) 0 false) c) ->
   let h := hint_of st o OGuard in
   (lset (abs st) x (false, fst (specf h (aval (sheap st) (hbuf (hnd st x))))),
    snd (specf h (aval (sheap st) (hbuf (hnd st x))))) = (abs st, OGuard).
 Proof.
-  intros I Hx Hs Dk Sp Hh h. subst h. rewrite Hh.
+  intros I Hx Hs Dk Sp [c Hh] h. subst h. rewrite Hh.
   assert (Gd0 : aval (sheap st) (hbuf (hnd st x)) = None \/
-              guarded (hint_at (sheap st) (hbuf (hnd st x)) 0 false) = true).
+              guarded (with_cons (hint_at (sheap st) (hbuf (hnd st x)) 0 false) c) = true).
   { unfold direct_ok in Dk. destruct (hbuf (hnd st x)) as [i|] eqn:Ha; [|left; reflexivity].
     destruct (inv_get st x i I Ha) as [b [E _]]. rewrite E in Dk.
     destruct (shared b || bimm b) eqn:Gd; [|discriminate].
-    right. unfold hint_at, guarded. rewrite E. exact Gd. }
+    right. unfold hint_at, guarded, with_cons. rewrite E. exact Gd. }
   rewrite (Sp _ _ Gd0). cbn [G fst snd]. rewrite lset_abs_same by assumption. reflexivity.
 Qed.
 
@@ -204,11 +206,12 @@ Lemma step_direct st o x (F : buf -> res buf) (specf : hint -> sval -> sval * ou
      if negb (Bool.eqb k false) then (vs, OGuard) else
      (lset vs x (k, fst (specf h v)), snd (specf h v))) ->
   (forall h v, v = None \/ guarded h = true -> specf h v = G v) ->
+  (forall h c v, specf (with_cons h c) v = specf h v) ->
   (forall hp i b cnt acc, hget hp i = Some b -> buf_wf b -> bref b = 1 -> shared b = false -> bimm b = false ->
      ares_ok hp (Some i) (r hp (Some i) i b) (specf (hint_at hp (Some i) cnt acc) (aval hp (Some i))) false) ->
   step_ok st o.
 Proof.
-  intros I Tx Sl Es Ss Sg Sem.
+  intros I Tx Sl Es Ss Sg Sc Sem.
   destruct (Nat.ltb_spec x (length (shnd st))) as [Hx|Hx].
   2:{ unfold step_ok. rewrite Es, (proj2 (Nat.ltb_ge _ _) Hx). cbn [negb].
       rewrite Ss, abs_length, (proj2 (Nat.ltb_ge _ _) Hx). cbn [negb].
@@ -229,7 +232,7 @@ Proof.
   - unfold step_ok. rewrite Es, (proj2 (Nat.ltb_lt _ _) Hx), Hs, Dk. cbn [negb Bool.eqb].
     split; [discriminate|]. split; [exact I|].
     rewrite Ss, abs_length, (proj2 (Nat.ltb_lt _ _) Hx), nth_abs, (absh_arr _ _ Hs). cbn [negb Bool.eqb].
-    apply (direct_guard st x specf o I Hx Hs Dk Sg). rewrite hint_of_at, Tx. reflexivity.
+    apply (direct_guard st x specf o I Hx Hs Dk Sg). eexists. rewrite hint_of_at, Tx. reflexivity.
 Qed.
 
 Lemma step_bufset st x tr pos d : inv st -> step_ok st (OBufSet x tr pos d).
@@ -448,10 +451,10 @@ Proof.
   destruct (negb (Bool.eqb k (is_slice_op o))); [reflexivity|].
   assert (L : forall w, nth y (lset vs (target o) w) d = nth y vs d).
   { intros w. rewrite nth_lset. destruct (Nat.eqb_spec y (target o)); [contradiction|reflexivity]. }
-  destruct o; cbn [fst]; try apply L.
-  - destruct y0 as [j|]; [|apply L].
-    destruct (negb (j <? length vs) || fst (nth j vs (false, None))); [reflexivity|apply L].
-  - destruct (negb (x <? length vs) || fst (nth x vs (false, None))); [reflexivity|apply L].
+  destruct o; cbn [fst]; try apply L;
+    try (match goal with |- context [match ?y with Some _ => _ | None => _ end] => destruct y end);
+    try (match goal with |- context [if ?c then _ else _] => destruct c end);
+    cbn [fst]; try reflexivity; try apply L.
 Qed.
 
 Lemma view_abs st y : view st y = svec (snd (nth y (abs st) (false, None))).
@@ -526,6 +529,17 @@ Proof.
     unfold s_mkslice. destruct (s_clone v (Some (snd (nth x vs (false, None))))) as [w []];
       unfold keeps_val; cbn [fst snd D R]; intros [H|H]; try discriminate; reflexivity.
   - unfold s_write. destruct v as [[t l]|]; keeps_tac.
+  - destruct (negb (y <? length vs) || fst (nth y vs (false, None))); [reflexivity|]. apply L.
+    unfold s_xassign. keeps_tac.
+  - unfold s_append. destruct v as [[t l]|]; keeps_tac.
+  - unfold s_xset. keeps_tac.
+  - unfold s_xsetstr. keeps_tac.
+  - destruct (negb (s <? length vs) || negb (fst (nth s vs (false, None)))); [reflexivity|]. apply L.
+    unfold s_xasl. keeps_tac.
+  - destruct (negb (y <? length vs) || fst (nth y vs (false, None))); [reflexivity|]. apply L.
+    unfold s_xmks. keeps_tac.
+  - unfold s_xshift. keeps_tac.
+  - unfold s_xtrim. keeps_tac.
 Qed.
 
 Lemma refused_unchanged_gen st o : step_ok st o ->
@@ -705,7 +719,7 @@ Proof.
     assert (Hh : whint (hcnt (hint_of st (OWrite x nblk esz from d) (if esz =? 0 then ODone 0 n else ODone n n)))
                        (hacc (hint_of st (OWrite x nblk esz from d) (if esz =? 0 then ODone 0 n else ODone n n)))
                  = whint (if esz =? 0 then 0 else n) true).
-    { unfold hint_of. destruct (hbuf (hnd st (target (OWrite x nblk esz from d)))) as [i|];
+    { unfold hint_of, hint_base, with_cons. destruct (hbuf (hnd st (target (OWrite x nblk esz from d)))) as [i|];
         [destruct (hget (sheap st) i)|]; destruct (esz =? 0); reflexivity. }
     rewrite Hh, Sp. cbn [fst snd].
     rewrite (abs_frame st x hp1 h' Hx F), (absh_sl hp1 h') by reflexivity. cbn [hbuf hoff hlen h'].
@@ -717,7 +731,7 @@ Proof.
     rewrite s_write_hint.
     assert (Hh : whint (hcnt (hint_of st (OWrite x nblk esz from d) ORefused))
                        (hacc (hint_of st (OWrite x nblk esz from d) ORefused)) = whint 0 false).
-    { unfold hint_of. destruct (hbuf (hnd st (target (OWrite x nblk esz from d)))) as [i|];
+    { unfold hint_of, hint_base, with_cons. destruct (hbuf (hnd st (target (OWrite x nblk esz from d)))) as [i|];
         [destruct (hget (sheap st) i)|]; reflexivity. }
     rewrite Hh, Sp. cbn [fst snd vis].
     rewrite (abs_frame st x hp1 h' Hx F), (absh_sl hp1 h') by reflexivity. cbn [hbuf hoff hlen h'].
